@@ -343,18 +343,19 @@ def handleReplyStep (cs : CtxSt) (id : ReqId) (ok : Bool) : Option (CtxSt × Lis
     match cs.pobj pid with
     | none => some (cs, [], .tau "unknown-request")
     | some po =>
-      if po.sub then
+      if po.sub = true ∧ ¬ (ok = true ∧ po.cancelled = true) then
         -- a subscribe request completed: on success the waiting receivers become local subscribers; wake the waiters.
-        -- A success reply that was overtaken by the removal notice of its publisher counts as a failure.
         some ({ cs with byId := upd cs.byId id none, byKey := upd cs.byKey po.key none,
                         lsubs := upd cs.lsubs po.key
                           (if ok && !po.cancelled then uni (cs.lsubs po.key) po.rcvs else cs.lsubs po.key),
                         pobj := upd cs.pobj pid (some { po with done := some (ok && !po.cancelled) }) }, [], .tau "reply")
-      else if po.rcvs ≠ [] then
-        -- an unsubscribe request completed while new subscribers are waiting: send a new subscribe request at once
+      else if po.sub = true ∨ po.rcvs ≠ [] then
+        -- send a new subscribe request at once: an unsubscribe request completed while new subscribers are waiting, or
+        -- a subscribe request was accepted while a removal notice for the signal arrived (it may have overtaken the reply,
+        -- or belong to a subscription already given up: the next reply decides)
         some ({ cs with byId := upd (upd cs.byId id none) cs.nextReq (some pid),
                         byKey := upd cs.byKey po.key (some pid),
-                        pobj := upd cs.pobj pid (some { po with sub := true, cur := cs.nextReq }),
+                        pobj := upd cs.pobj pid (some { po with sub := true, cancelled := false, cur := cs.nextReq }),
                         nextReq := cs.nextReq + 1 },
               [.sendChk po.key.pc (.subReq cs.nextReq po.key.ob po.key.sg true)], .req "resub" cs.nextReq)
       else
